@@ -16,7 +16,7 @@ warnings.filterwarnings("ignore", category=DeprecationWarning)
 warnings.filterwarnings("ignore", category=UserWarning)
 from rdflib import BNode, Dataset, URIRef  # noqa: E402
 from rdflib.graph import DATASET_DEFAULT_GRAPH_ID  # noqa: E402
-from rdflib.namespace import XSD  # noqa: E402
+from rdflib.namespace import RDF, XSD  # noqa: E402
 
 XSD_STRING = str.__str__(XSD.string)
 
@@ -38,11 +38,17 @@ ASSUMPTIONS = [
 ]
 RULE = ("a case is (format, dataset[, target dataset]); datasets have 0-4 named graphs out of IRI names, blank-node "
         "names, a name equal to a subject IRI and a name equal to a blank node used in triples, 1-5 triples over a tiny "
+        "vocabulary plus (45% of the cases) one or two well-formed RDF collections of length 1-3 each inside one graph, "
         "vocabulary (falsy literals included) spread over the graphs so that triples and blank nodes are shared; "
         "distinct = distinct case content; non-trivial = at least one named graph holds a triple")
 
 # ------------------------------------------------------------------ numbering
-BKEY = {"b1": 8, "b2": 13, "urn:g:1": 103, "g4": 104, "g7": 107}  # blank-node label -> key; id = 2*key+1
+BKEY = {"b1": 8, "b2": 13, "urn:g:1": 103, "g4": 104, "g7": 107,  # blank-node label -> key; id = 2*key+1
+        "l1": 201, "l2": 202, "l3": 203, "l4": 204}            # cells of RDF collections: 403 405 407 409
+CELLS = [403, 405, 407, 409]
+RDF_FIRST, RDF_REST, RDF_NIL = 40, 42, 44
+EXTRA_TERMS = {RDF_FIRST: RDF.first, RDF_REST: RDF.rest, RDF_NIL: RDF.nil}
+EXTRA_ID = {tkey(t): i for i, t in EXTRA_TERMS.items()}
 BLABEL = {v: k for k, v in BKEY.items()}
 GIRI = {2 * (100 + i + 1): g for i, g in enumerate(GRAPH_POOL) if isinstance(g, URIRef)}  # 202, 204, 210
 GIRI_ID = {tkey(g): i for i, g in GIRI.items()}
@@ -52,7 +58,28 @@ def node(x):
     """model id -> rdflib term"""
     if x % 2:
         return BNode(BLABEL[(x - 1) // 2])
+    if x in EXTRA_TERMS:
+        return EXTRA_TERMS[x]
     return TERM_POOL[x // 2 - 1]
+
+
+def list_quads(L):
+    """a well-formed RDF collection: s p head ; cell rdf:first member ; cell rdf:rest next|rdf:nil - all in graph g"""
+    g, cells, members = L["g"], L["cells"], L["members"]
+    out = [[L["s"], L["p"], cells[0], g]]
+    for i, (c, m) in enumerate(zip(cells, members)):
+        out.append([c, RDF_FIRST, m, g])
+        out.append([c, RDF_REST, cells[i + 1] if i + 1 < len(cells) else RDF_NIL, g])
+    return out
+
+
+def all_quads(d):
+    out = [list(q) for q in d["quads"]]
+    for L in d.get("lists", []):
+        for q in list_quads(L):
+            if q not in out:
+                out.append(q)
+    return out
 
 
 def gname(c):
@@ -83,6 +110,8 @@ class Numbering:
         k = tkey(t)
         if k[0] == "Literal" and k[2] == XSD_STRING:
             k = (k[0], k[1], None, None)  # RDF 1.1: "x"^^xsd:string IS the simple literal "x" (hext writes it that way)
+        if k in EXTRA_ID:
+            return EXTRA_ID[k]
         return 2 * TERM_ID.get(k, 999)
 
     def graph(self, ident):
@@ -105,7 +134,7 @@ def build(d):
     for c in d["graphs"]:
         if c != 0:
             ds.graph(gname(c))
-    for s, p, o, c in d["quads"]:
+    for s, p, o, c in all_quads(d):
         t = (node(s), node(p), node(o))
         if c == 0:
             ds.add(t)
@@ -140,7 +169,7 @@ EMPTY = {"graphs": [], "quads": []}
 def c_dset(d):
     ctxs = [0] + [c for c in d["graphs"] if c != 0]
     return ("{| d_ctxs := " + clist(cN(c) for c in ctxs) + "; d_quads := "
-            + clist(ctuple(ctuple(cN(q[0]), cN(q[1]), cN(q[2])), cN(q[3])) for q in d["quads"]) + " |}")
+            + clist(ctuple(ctuple(cN(q[0]), cN(q[1]), cN(q[2])), cN(q[3])) for q in all_quads(d)) + " |}")
 
 
 def bnode_edge(q):
@@ -193,6 +222,34 @@ class C06(Suite):
         rng.shuffle(pool)
         return pool[: rng.choice([1, 2, 3, 4, 5])]
 
+    def add_lists(self, rng, d, first_cell=0, prob=0.45):
+        """RDF collections (length 1-3, members IRIs/literals incl. falsy ones), each entirely inside ONE graph,
+        head referenced exactly once from an IRI subject; at most 4 cells and 6 blank nodes per dataset"""
+        d["lists"] = []
+        if rng.random() >= prob:
+            return d
+        room = len(CELLS) - first_cell
+        k = first_cell
+        for _ in range(rng.choice([1, 1, 2])):
+            if room <= 0:
+                break
+            n = rng.choice([x for x in (1, 2, 3) if x <= room])
+            named = d["graphs"]
+            g = rng.choice(named) if named and rng.random() < 0.65 else 0
+            L = {"g": g, "s": rng.choice([2, 4, 24]), "p": rng.choice(PRED), "cells": CELLS[k:k + n],
+                 "members": [rng.choice([2, 4, 24, 10, 12, 14, 18, 20, 22, 28]) for _ in range(n)]}
+            d["lists"].append(L)
+            k += n
+            room -= n
+        while d["lists"] and len({x for q in all_quads(d) for x in q if x % 2}) > 6:
+            L = d["lists"][-1]
+            if len(L["cells"]) > 1:
+                L["cells"].pop()
+                L["members"].pop()
+            else:
+                d["lists"].pop()
+        return d
+
     def gen(self, rng, i):
         fmt = rng.choice(["nquads", "hext", "trig", "trix", "json-ld", "patch", "patchdiff", "patchdiff"])
         if fmt == "patchdiff":
@@ -208,6 +265,21 @@ class C06(Suite):
                         tgt["quads"].append(q)
             else:
                 tgt = self.gen_dataset(rng, pool, gpool)
+            self.add_lists(rng, src, 0, 0.3)
+            r = rng.random()
+            if r < 0.15 and src["lists"]:
+                # the same collection in the target, possibly with another member or in another graph
+                tgt["lists"] = [dict(L, members=list(L["members"]), cells=list(L["cells"])) for L in src["lists"]]
+                L = tgt["lists"][0]
+                if rng.random() < 0.5:
+                    L["members"][-1] = rng.choice([2, 12, 14, 20])
+                elif tgt["graphs"]:
+                    L["g"] = rng.choice([0] + tgt["graphs"])
+                tgt["lists"] = [L for L in tgt["lists"] if L["g"] == 0 or L["g"] in tgt["graphs"]]
+            elif r < 0.4:
+                self.add_lists(rng, tgt, 2, 1.0)
+            else:
+                tgt["lists"] = []
             return {"fmt": fmt, "src": src, "tgt": tgt}
         src = self.gen_dataset(rng)
         if fmt == "trig":
@@ -216,6 +288,7 @@ class C06(Suite):
                    "quads": [q[:3] + [215 if q[3] == 207 else q[3]] for q in src["quads"]]}
         if fmt == "json-ld":
             src["quads"] = [q for q in src["quads"] if not bnode_edge(q)]
+        self.add_lists(rng, src)
         return {"fmt": fmt, "src": src, "tgt": EMPTY}
 
     # ------------------------------------------------------------ implementation
@@ -248,12 +321,19 @@ class C06(Suite):
                       clist(ctuple(ctuple(cN(q[0]), cN(q[1]), cN(q[2])), cN(q[3])) for q in obs["quads"]))
 
     def nontrivial(self, case, obs):
-        return any(q[3] != 0 for q in case["src"]["quads"]) or any(q[3] != 0 for q in case["tgt"]["quads"])
+        return any(q[3] != 0 for q in all_quads(case["src"])) or any(q[3] != 0 for q in all_quads(case["tgt"]))
 
     def features(self, case, obs):
         src = case["src"]
-        qs = src["quads"]
+        qs = all_quads(src)
         f = {"fmt_" + case["fmt"]: 1, "quads": len(qs), "named_graphs": len(src["graphs"])}
+        ls = src.get("lists", []) + case["tgt"].get("lists", [])
+        f["rdf_lists"] = len(ls)
+        f["rdf_list_in_named_graph"] = sum(1 for L in ls if L["g"] != 0)
+        f["rdf_list_in_bnode_named_graph"] = sum(1 for L in ls if L["g"] % 2)
+        f["rdf_list_falsy_member"] = sum(1 for L in ls if any(m in (10, 12, 14, 28) for m in L["members"]))
+        for L in ls:
+            f["rdf_list_len_%d" % len(L["cells"])] = f.get("rdf_list_len_%d" % len(L["cells"]), 0) + 1
         cids = {q[3] for q in qs}
         f["bnode_named_nonempty"] = sum(1 for c in cids if c % 2)
         f["iri_named_nonempty"] = sum(1 for c in cids if c and not c % 2)
@@ -279,7 +359,13 @@ class C06(Suite):
             d = case[key]
             for i in range(len(d["quads"])):
                 yield dict(case, **{key: dict(d, quads=d["quads"][:i] + d["quads"][i + 1:])})
-            used = {q[3] for q in d["quads"]}
+            ls = d.get("lists", [])
+            for i in range(len(ls)):
+                yield dict(case, **{key: dict(d, lists=ls[:i] + ls[i + 1:])})
+                if len(ls[i]["cells"]) > 1:   # shorter list, still well-formed
+                    L = dict(ls[i], cells=ls[i]["cells"][:-1], members=ls[i]["members"][:-1])
+                    yield dict(case, **{key: dict(d, lists=ls[:i] + [L] + ls[i + 1:])})
+            used = {q[3] for q in all_quads(d)}
             for i, g in enumerate(d["graphs"]):
                 if g not in used:
                     yield dict(case, **{key: dict(d, graphs=d["graphs"][:i] + d["graphs"][i + 1:])})
@@ -300,6 +386,15 @@ class C06(Suite):
         for a in dsets:
             for b in dsets:
                 yield {"fmt": "patchdiff", "src": a, "tgt": b}
+        # one collection of length 1..3 in the default / IRI-named / blank-node-named graph, next to a plain triple
+        for g in cids:
+            for n in (1, 2, 3):
+                for members in ([12, 2, 10], [2, 2, 2], [14, 20, 28]):
+                    L = {"g": g, "s": 2, "p": 8, "cells": CELLS[:n], "members": members[:n]}
+                    for extra in ([], [[2, 6, 4, 0]], [[2, 6, 4, 202]], [[2, 8, 4, g]]):
+                        d = {"graphs": [202, 209], "quads": extra, "lists": [L]}
+                        for fmt in ("nquads", "hext", "trig", "trix", "json-ld", "patch"):
+                            yield {"fmt": fmt, "src": d, "tgt": EMPTY}
 
 
 SUITES = [C06()]
